@@ -2300,10 +2300,17 @@ def _math(I, name):
     if name == "isnan":
         return _map1(I, lambda x: sp.true if x is sp.nan else sp.false)
     if name == "diff":
-        def npdiff(x):
+        def npdiff(x, n=1, axis=-1, prepend=None, append=None):
             if not isinstance(x, Vec):
                 raise AnalysisError("numpy.diff of a non-array")
-            return Vec(binop(I, ast.Sub(), b_, a_) for a_, b_ in zip(x.items, x.items[1:]))
+            if concrete_int(n) != 1 or concrete_int(axis) not in (-1, 0) or (x.items and isinstance(x.items[0], Vec)):
+                raise AnalysisError("numpy.diff: only first differences of a 1-D array are modelled")
+            items = list(x.items)
+            if prepend is not None:
+                items = (list(prepend.items) if isinstance(prepend, Vec) else [prepend]) + items
+            if append is not None:
+                items = items + (list(append.items) if isinstance(append, Vec) else [append])
+            return Vec(binop(I, ast.Sub(), b_, a_) for a_, b_ in zip(items, items[1:]))
         return npdiff
     if name == "dtype":
         def npdtype(spec, *a, **k):
